@@ -179,13 +179,63 @@ def wbuf(V, nslices, nbuf):
     return cl
 
 
+def lr_rolling(V, cin, mid_dtype, out_dtype):
+    """two sites must agree on the bytes of a cascade's rolling buffer: cascade_builder.BufferMap.get_buffer (what the scheduler
+    budgets and what the buffer's addresses wrap at) and extract_live_ranges_from_schedule (what the allocator reserves).  Real code
+    on both sides, stand-in scheduler objects, real Tensor/LiveRangeGraph; producer stripe height and feature-map height symbolic.
+    Oracle: buffer elements x element size of the data stored in it (the producer's OFM = the consumer's IFM tensor)."""
+    import ethosu.vela.cascade_builder as cb
+    import ethosu.vela.live_range as lrm
+    import ethosu.vela.tensor as tm
+    import ethosu.vela.numeric_util as nu
+    from ethosu.vela.tensor import Tensor, MemArea, MemType, TensorPurpose
+    from ethosu.vela.data_type import DataType
+    from ethosu.vela.shape4d import Shape4D
+
+    W, C = 8, 16
+    P = V.int("producer_stripe_height", 1, 64)
+    H = V.int("height", 1, 4096)
+    dts = {"int8": DataType.int8, "int16": DataType.int16}
+    mk = lambda name, dt: _tensor(name, [1, 64, W, C], dt)  # noqa
+    t_in, t_mid, t_out = mk("in", DataType.int8), mk("mid", dts[mid_dtype]), mk("out", dts[out_dtype])
+    prod = _Obj(ofm=_Obj(shape=Shape4D(1, H, W, C), dtype=dts[mid_dtype]), ifm=_Obj(shape=Shape4D(1, H, W, C), dtype=DataType.int8), requires_full_ofm=False,
+                requires_full_ifm=False, index=0, name="producer")
+    cons = _Obj(ofm=_Obj(shape=Shape4D(1, H, W, C), dtype=dts[out_dtype]), ifm=_Obj(shape=Shape4D(1, H, W, C), dtype=dts[mid_dtype]), requires_full_ofm=False,
+                requires_full_ifm=False, index=1, name="consumer")
+    cost = {prod: _Obj(stripe=Shape4D(1, P, W, C), cascade=1, buffered_weight_tensors=[], ofm_depth_slices=[0, C]),
+            cons: _Obj(stripe=Shape4D(1, 1, W, C), stripe_input=Shape4D(1, cin, W, C), cascade=1, buffered_weight_tensors=[], ofm_depth_slices=[0, C])}
+    with core.shims((cb, {"max": core.smax, "min": core.smin}), (lrm, {"max": core.smax, "min": core.smin}), (tm, {"int": core.IntShim}), (nu, {"int": core.IntShim})):
+        shape, size = cb.BufferMap().get_buffer(prod, cons, cost)
+        prod.parent_ps = _Obj(inputs=[t_in], outputs=[t_mid], intermediates=[], ifm_tensor=t_in)
+        cons.parent_ps = _Obj(inputs=[t_mid], outputs=[t_out], intermediates=[], ifm_tensor=t_mid)
+        prod.parent_op = _Obj(ofm=t_mid)
+        cons.parent_op = _Obj(ofm=t_out)
+        sg = _Obj(sched_ops=[prod, cons], schedule=_Obj(cost_map=cost, cascades={1: _Obj(start=0, end=1, buffers={cons: shape}, mem_usage=0)}), output_tensors=[])
+        g = lrm.extract_live_ranges_from_schedule(sg, MemArea.Sram, {MemType.Scratch_fast}, lrm.LiveRangeGraph())
+    rng = g.ranges[t_mid]
+    esz = 2 if mid_dtype == "int16" else 1
+    want = L(shape.height) * W * ((C + 15) // 16 * 16) * esz
+    return [("scheduler's rolling-buffer size == elements x element size of the stored data", L(size) == want),
+            ("live range reserved for the rolling buffer == the scheduler's buffer size", L(rng.size) == L(size)),
+            ("buffer is at least producer stripe + consumer input rows", L(shape.height) >= L(P) + cin)]
+
+
+def _tensor(name, shape, dt):
+    from ethosu.vela.tensor import Tensor, MemArea, MemType, TensorPurpose
+
+    t = Tensor(shape, dt, name)
+    t.purpose = TensorPurpose.FeatureMap
+    t.mem_area, t.mem_type = MemArea.Sram, MemType.Scratch_fast
+    return t
+
+
 def rolling(V, **params):
     from harness import c10
 
     return c10.cascade(V, **params)
 
 
-FUNCS = {"lut": lut, "wbuf": wbuf, "rolling": rolling}
+FUNCS = {"lut": lut, "wbuf": wbuf, "rolling": rolling, "lr_rolling": lr_rolling}
 
 
 def instances(tier, seed):
@@ -196,6 +246,9 @@ def instances(tier, seed):
     for nslices in range(1, 8):
         for nbuf in (1, 2):
             out.append(dict(key="wbuf/s%d_b%d" % (nslices, nbuf), fn="wbuf", params=dict(nslices=nslices, nbuf=nbuf)))
+    for cin in (1, 2, 3, 5, 8):
+        for md, od in (("int8", "int8"), ("int16", "int8"), ("int8", "int16"), ("int16", "int16")):
+            out.append(dict(key="lr_rolling/cin%d/%s_%s" % (cin, md, od), fn="lr_rolling", params=dict(cin=cin, mid_dtype=md, out_dtype=od)))
     from harness import c10
 
     for inst in c10.instances(tier, seed):
